@@ -136,9 +136,10 @@ Definition g_object_field_ (g_value : g_constness -> bool -> PM unit) (c : g_con
   p_node SK_OBJECT_FIELD (
     g_name ;;
     b <- g_peek_is TkColon ;;
-    p_when b (
+    if b then
       p_bump SK_COLON ;;
-      p_rec_guard p_limit_err (* return *) (g_value c true) (fun _ => p_ret tt))).
+      p_rec_guard p_limit_err (* return *) (g_value c true) (fun _ => p_ret tt)
+    else p_err).
 
 Definition g_object_value_ (g_value : g_constness -> bool -> PM unit) (fuel : nat) (c : g_constness) : PM unit :=
   p_node SK_OBJECT_VALUE (
@@ -189,7 +190,7 @@ Definition g_argument (fuel : nat) (c : g_constness) : PM unit :=
   p_node SK_ARGUMENT (
     g_name ;;
     b <- g_peek_is TkColon ;;
-    p_when b (p_bump SK_COLON ;; g_value fuel c false)).
+    if b then p_bump SK_COLON ;; g_value fuel c false else p_err).
 
 Definition g_arguments (fuel : nat) (c : g_constness) : PM unit :=
   p_node SK_ARGUMENTS (
@@ -420,13 +421,17 @@ Definition g_field_set (fuel : nat) : PM unit :=
 
 (* ------------------------------------------------------------------ fragment.rs (definition) *)
 Definition g_fragment_definition (fuel : nat) : PM unit :=
-  p_node SK_FRAGMENT_DEFINITION (
-    p_bump SK_fragment_KW ;;
-    g_fragment_name ;;
-    g_type_condition ;;
-    g_if_peek TkAt (g_directives fuel GNotConst) ;;
-    b <- g_peek_is TkLCurly ;;
-    if b then g_selection_set fuel else p_err).
+  (* the document dispatch looks through a leading string at the keyword; a fragment definition has no description *)
+  d <- g_peek_is TkStringValue ;;
+  if d then p_err_and_pop (* return *)
+  else
+    p_node SK_FRAGMENT_DEFINITION (
+      p_bump SK_fragment_KW ;;
+      g_fragment_name ;;
+      g_type_condition ;;
+      g_if_peek TkAt (g_directives fuel GNotConst) ;;
+      b <- g_peek_is TkLCurly ;;
+      if b then g_selection_set fuel else p_err).
 
 (* ------------------------------------------------------------------ operation.rs *)
 Definition g_operation_type : PM unit :=
@@ -583,13 +588,13 @@ Definition g_schema_extension (fuel : nat) : PM unit :=
     p_bump SK_schema_KW ;;
     d <- g_peek_is TkAt ;; p_when d (g_directives fuel GConst) ;;
     c <- g_peek_is TkLCurly ;;
-    r <- (if c then
-            p_bump SK_L_CURLY ;;
-            r <- p_peek_while_kind_acc fuel TkName (fun _ => g_root_operation_type_definition ;; p_ret true) false ;;
-            p_expect TkRCurly SK_R_CURLY ;;
-            p_ret r
-          else p_ret false) ;;
-    p_when (negb (d || r)) p_err).
+    if c then
+      p_bump SK_L_CURLY ;;
+      has_root_operation_types <-
+        p_peek_while_kind_acc fuel TkName (fun _ => g_root_operation_type_definition ;; p_ret true) false ;;
+      p_when (negb has_root_operation_types) p_err ;;
+      p_expect TkRCurly SK_R_CURLY
+    else p_when (negb d) p_err).
 
 (* ------------------------------------------------------------------ union_.rs *)
 Definition g_union_member_types (fuel : nat) : PM unit :=
